@@ -184,3 +184,18 @@ pub fn handler_event_for(rpc: &WireRpc, mode: ValidationMode) -> Option<HandlerE
     }
     d.events.pop()
 }
+
+/// panic location for signatures: repo-relative for /repo files, `<crate-version>/src/..` for
+/// registry dependencies (the registry directory name is machine specific)
+pub fn short_site(p: &vmon::PanicInfo) -> String {
+    if p.in_repo() {
+        return p.site();
+    }
+    match p.location.find("/registry/src/") {
+        Some(i) => {
+            let rest = &p.location[i + "/registry/src/".len()..];
+            rest.split_once('/').map(|(_, r)| r.to_string()).unwrap_or_else(|| rest.to_string())
+        }
+        None => p.location.clone(),
+    }
+}
